@@ -17,12 +17,20 @@ import (
 // violationSignal is how an executor aborts a run with a verdict.
 type violationSignal struct{ v *engine.Violation }
 
+// abandonSignal ends a run without a verdict: a partner object that the active
+// property does not observe failed, so the run cannot continue, but the
+// failure belongs to another property's check.
+type abandonSignal struct{}
+
 // xctx is the state shared by all executors.
 type xctx struct {
 	prop string
 	plan *engine.Plan
 	st   *engine.Stats
 	at   int // index of the event being executed
+	// partner is set while the executor operates on an object the active
+	// property does not observe; a library panic then abandons the run.
+	partner bool
 }
 
 func (x *xctx) fail(oracle, sig, msg, expected, observed string) {
@@ -40,6 +48,13 @@ func (x *xctx) lib(op, sig string, f func()) {
 			if vs, ok := r.(*violationSignal); ok {
 				panic(vs)
 			}
+			if _, ok := r.(*abandonSignal); ok {
+				panic(r)
+			}
+			if x.partner {
+				x.st.Probe("run-abandoned-partner-panic")
+				panic(&abandonSignal{})
+			}
 			x.fail("panic", op+"/"+sig, fmt.Sprintf("panic in %s: %v", op, r), "no panic", "panic")
 		}
 	}()
@@ -52,6 +67,10 @@ func (x *xctx) run(body func()) (v *engine.Violation) {
 		if r := recover(); r != nil {
 			if vs, ok := r.(*violationSignal); ok {
 				v = vs.v
+				return
+			}
+			if _, ok := r.(*abandonSignal); ok {
+				v = nil
 				return
 			}
 			panic(r)
